@@ -75,6 +75,16 @@ Definition tc_ok (e : entry) : bool :=
 Definition tcs_ok (es : list entry) : bool := forallb tc_ok es.
 End DV.
 
+(* difflib's opcodes tile both lists in ascending order (true of SequenceMatcher.get_opcodes) *)
+Fixpoint ops_tile (lo1 lo2 : nat) (os : list opcode) : bool :=
+  match os with
+  | [] => true
+  | o :: r => Nat.leb lo1 (oi1 o) && Nat.leb (oi1 o) (oi2 o) && Nat.leb lo2 (oj1 o) && Nat.leb (oj1 o) (oj2 o)
+              && ops_tile (oi2 o) (oj2 o) r
+  end.
+Definition ops_tiling (ops : path -> list value -> list value -> list opcode) : Prop :=
+  forall p xs ys, ops_tile 0 0 (ops p xs ys) = true.
+
 (* DeepDiff(t1, t2, get_deep_distance=True) in ordered mode, from the inputs alone *)
 Definition deep_distance_of_diff hatom udiff ops skip excl c incl (cutoff : PrimFloat.float) (t1 t2 : value) : rres :=
   let r := diff hatom udiff ops skip excl c t1 t2 [] [] in
